@@ -417,6 +417,27 @@ def opSched (j : Json) : Except String Json := do
   let tr := Sched.run ps (Sched.init ps) times.toList
   return Json.mkObj [("sent", Json.arr (tr.map fun row => Json.arr (row.map Json.bool).toArray).toArray)]
 
+/-- `Logger.error` on a registry of sources and an error chain (FcpModel/Render.lean) -/
+def opRender (j : Json) : Except String Json := do
+  let sa ← j.getObjValAs? (Array Json) "sources"
+  let srcs : Render.Sources ← sa.toList.mapM fun p => do
+    let q ← p.getArr?
+    if h : q.size = 2 then
+      return ((← q[0].getStr?), (← q[1].getStr?).toList)
+    else throw "bad source pair"
+  let ma ← j.getObjValAs? (Array Json) "msgs"
+  let ms : List Render.RMsg ← ma.toList.mapM fun m => do
+    let text ← m.getObjValAs? String "text"
+    match m.getObjVal? "cite" with
+    | .ok .null => pure { text := text.toList }
+    | .error _ => pure { text := text.toList }
+    | .ok c =>
+      pure { text := text.toList,
+             cite := some ⟨← c.getObjValAs? String "full", ← c.getObjValAs? String "base", ← c.getObjValAs? Nat "line"⟩ }
+  match Render.render srcs true ms with
+  | some out => return Json.mkObj [("out", Json.str (String.ofList out))]
+  | none => return Json.mkObj [("none", true)]
+
 def dispatch (j : Json) : Except String Json := do
   let op ← j.getObjValAs? String "op"
   match op with
@@ -432,6 +453,7 @@ def dispatch (j : Json) : Except String Json := do
   | "reflect" => opReflect j
   | "cpp" => opCpp j
   | "frame" => opFrame j
+  | "render" => opRender j
   | "utf8" => do
     -- which byte strings are texts: `utf8Valid` on each of the given byte lists
     let items ← j.getObjValAs? (Array Json) "items"
